@@ -296,7 +296,15 @@ impl Op {
                 select(um, *s, *r, *c, r + h - 1, c + w - 1)?;
                 um.on_paste_styles(&[vec![fancy_style(false)]])
             }
-            PasteStylesHere => um.on_paste_styles(&[vec![fancy_style(true)]]),
+            PasteStylesHere => {
+                // harness guard: pasting a style into a whole selected row/column writes up to a million cells
+                let v = um.get_selected_view();
+                let cells = ((v.range[2] - v.range[0]).abs() as i64 + 1) * ((v.range[3] - v.range[1]).abs() as i64 + 1);
+                if cells > 400 {
+                    return Err("harness: selection too large for PasteStylesHere".to_string());
+                }
+                um.on_paste_styles(&[vec![fancy_style(true)]])
+            }
             InsertRows(s, r, n) => um.insert_rows(*s, *r, *n),
             InsertCols(s, c, n) => um.insert_columns(*s, *c, *n),
             DeleteRows(s, r, n) => um.delete_rows(*s, *r, *n),
